@@ -32,6 +32,95 @@ use std::collections::{BTreeMap, HashMap};
 use vx::rayon::prelude::*;
 use vx::{guard, Ctx, Level};
 
+/// System allocator with one addition: when an allocation FAILS, one line `c05-alloc-failure size=<requested>
+/// vsize=<address space in use>` goes to stderr before the null pointer is returned (std then aborts the process).
+/// The parent of a hostile-family child uses it to tell an allocation that failed because the child reached its
+/// RLIMIT_AS (the input drove the subject to ask for more than the limit: judged) from one that failed although the
+/// process was far below the limit (the MACHINE was out of memory: recorded, not judged). No allocation happens on
+/// this path; the success path costs one predictable branch.
+struct DiagAlloc;
+fn alloc_failed(size: usize) {
+  unsafe {
+    let mut buf = [0u8; 128];
+    let fd = libc::open(b"/proc/self/statm\0".as_ptr() as *const libc::c_char, libc::O_RDONLY);
+    let mut pages: u64 = 0;
+    if fd >= 0 {
+      let n = libc::read(fd, buf.as_mut_ptr() as *mut libc::c_void, buf.len());
+      libc::close(fd);
+      let mut i = 0;
+      while n > 0 && i < n as usize && buf[i].is_ascii_digit() {
+        pages = pages.wrapping_mul(10).wrapping_add((buf[i] - b'0') as u64);
+        i += 1;
+      }
+    }
+    let page = libc::sysconf(libc::_SC_PAGESIZE).max(1) as u64;
+    // format without allocating
+    let mut out = [0u8; 96];
+    let mut k = 0;
+    let mut put = |b: &[u8], k: &mut usize| {
+      for x in b {
+        if *k < out.len() {
+          out[*k] = *x;
+          *k += 1;
+        }
+      }
+    };
+    let num = |mut v: u64, tmp: &mut [u8; 20]| -> usize {
+      let mut i = 20;
+      loop {
+        i -= 1;
+        tmp[i] = b'0' + (v % 10) as u8;
+        v /= 10;
+        if v == 0 {
+          break;
+        }
+      }
+      i
+    };
+    let mut tmp = [0u8; 20];
+    put(b"c05-alloc-failure size=", &mut k);
+    let i = num(size as u64, &mut tmp);
+    put(&tmp[i..], &mut k);
+    put(b" vsize=", &mut k);
+    let i = num(pages.wrapping_mul(page), &mut tmp);
+    put(&tmp[i..], &mut k);
+    put(b"\n", &mut k);
+    libc::write(2, out.as_ptr() as *const libc::c_void, k);
+  }
+}
+unsafe impl std::alloc::GlobalAlloc for DiagAlloc {
+  #[inline]
+  unsafe fn alloc(&self, l: std::alloc::Layout) -> *mut u8 {
+    let p = std::alloc::System.alloc(l);
+    if p.is_null() {
+      alloc_failed(l.size());
+    }
+    p
+  }
+  #[inline]
+  unsafe fn dealloc(&self, p: *mut u8, l: std::alloc::Layout) {
+    std::alloc::System.dealloc(p, l)
+  }
+  #[inline]
+  unsafe fn alloc_zeroed(&self, l: std::alloc::Layout) -> *mut u8 {
+    let p = std::alloc::System.alloc_zeroed(l);
+    if p.is_null() {
+      alloc_failed(l.size());
+    }
+    p
+  }
+  #[inline]
+  unsafe fn realloc(&self, p: *mut u8, l: std::alloc::Layout, n: usize) -> *mut u8 {
+    let q = std::alloc::System.realloc(p, l, n);
+    if q.is_null() {
+      alloc_failed(n);
+    }
+    q
+  }
+}
+#[global_allocator]
+static ALLOC: DiagAlloc = DiagAlloc;
+
 /// Coarse outcome label of one evaluation ("accepted", "rej:<error class>", ...).
 pub type Out = &'static str;
 
@@ -164,6 +253,13 @@ pub fn pkey(p: &vx::Panicked) -> String {
   format!("{head}:{norm}")
 }
 
+/// True when the panic was raised by harness code (this check's own sources, the `vx` library) or by a fixture
+/// `Lazy` that an earlier harness panic poisoned — as opposed to the subject or one of its dependencies.
+pub fn harness_panic(p: &vx::Panicked) -> bool {
+  let l = p.loc.as_str();
+  l.starts_with("vcheck/") || l.starts_with("vx/") || l.contains("/vcheck/src/") || l.contains("/vx/src/") || l.starts_with("src/bin/c05") || p.msg.contains("Lazy instance has previously been poisoned")
+}
+
 /// Run ONE input through ONE entry point and judge it. `keep_distinct`: record the case as a distinct
 /// non-trivial case when it was accepted (see the rule text in `generate`).
 pub fn run1(ctx: &Ctx, e: &Entry, input: In<'_>, local: &mut Local, keep_distinct: bool) -> Out {
@@ -187,6 +283,13 @@ pub fn run1(ctx: &Ctx, e: &Entry, input: In<'_>, local: &mut Local, keep_distinc
       // a dependency is identified by (entry point, dependency file, message class) alone, so that one
       // dependency defect reachable through many accessors keeps one key per entry point.
       let in_dependency = p.loc.starts_with("crates.io/") || p.loc.starts_with("rust/");
+      // A panic raised by the harness itself (a fixture `expect`, a poisoned fixture `Lazy`) says nothing about the
+      // subject: it is a machinery error (exit 2), never a verdict.
+      if harness_panic(&p) {
+        ctx.require(false, &format!("harness panicked inside a guarded call of {}: {} @ {}", e.name, p.msg, p.loc));
+        *local.outcomes.entry((e.name, "HARNESS-PANIC(machinery)")).or_insert(0) += 1;
+        return "HARNESS-PANIC(machinery)";
+      }
       let entry = if stage.is_empty() || in_dependency { e.name.to_string() } else { format!("{}>{}", e.name, stage) };
       let key = format!("{entry}|{}", pkey(&p));
       let ilen = match &input {
